@@ -387,6 +387,12 @@ impl RefCountTable {
 			log.read(try_io!(Ok(
 				&mut chunk[i as usize * ENTRY_BYTES..(i as usize + 1) * ENTRY_BYTES]
 			)))?;
+			#[cfg(pdb_verif)]
+			crate::verif::store(
+				&self.path,
+				(offset + i as usize * ENTRY_BYTES) as u64,
+				&chunk[i as usize * ENTRY_BYTES..(i as usize + 1) * ENTRY_BYTES],
+			);
 		}
 		log::trace!(target: "parity-db", "{}: Enacted ref count chunk {}", self.id, index);
 		Ok(())
